@@ -6,10 +6,10 @@ import pvlib
 from pvlib import Check, run_tlc, run_cases, payloads
 
 PRELUDE = ('mk := {|n| {v: n, inc: m{say(1); mk(self.v + 1)}, tonil: m{say(2); nil}, bad: m{say(3); Err.new("bad")}, div0: m{say(4); 1 / 0}, '
-           'name: m{say(5); undefinedname}, add: m{|x, k: 0| say(6); mk(self.v + x + k)}}}\n')
-STEP = {"inc": ".inc", "tonil": ".tonil", "bad": ".bad", "div0": ".div0", "name": ".name", "add": ".add(3, k: 1)", "getv": ".v",
+           'name: m{say(5); undefinedname}, add: m{|x, k: 0| say(6); mk(self.v + x + k)}, wrapv: m{say(10); self.try}, wrapbad: m{say(11); self.try.{|s| Err.new("bad")}}}}\n')
+STEP = {"inc": ".inc", "tonil": ".tonil", "bad": ".bad", "div0": ".div0", "name": ".name", "add": ".add(3, k: 1)", "add2": ".add(3, k: 2)", "adddef": ".add(3)", "wrapv": ".wrapv", "wrapbad": ".wrapbad", "getv": ".v",
         "lit2": ".{|x| say(7); mk(x.v * 2)}", "litbad": '.{|x| say(8); Err.new("lit")}', "errobj": '.{|x| say(9); nil.try.{|u| Err.new("bad")}.err}'}
-PROPNAME = {"inc": "inc", "tonil": "tonil", "bad": "bad", "div0": "div0", "name": "name", "add": "add", "getv": "v"}
+PROPNAME = {"inc": "inc", "tonil": "tonil", "bad": "bad", "div0": "div0", "name": "name", "add": "add", "add2": "add", "adddef": "add", "wrapv": "wrapv", "wrapbad": "wrapbad", "getv": "v"}
 ACC = {"val": "e.val", "err": "e.err", "A": "e.A", "or": "e.or(99)", "val?": "e.val?", "err?": "e.err?", "catchErr": "e.catch(Err){|x| 77}.A",
        "catchType": "e.catch(TypeErr){|x| 77}.A", "ignoreErr": "e.ignore(Err).A", "abandon": "e.abandon"}
 
@@ -24,6 +24,8 @@ def render(v, objs, fixmsg):
         return str(v["n"])
     if t == "bool":
         return "true" if v["b"] else "false"
+    if t == "E":
+        return objs[("E", v["ok"], v["n"])]
     if t == "errw":
         return f"<err {v['kind']}: {fixmsg(v['msg'])}>"
     raise ValueError(t)
@@ -39,6 +41,9 @@ def run():
     cases = payloads(res, "CASE ")
     ref = run_cases([{"id": "ref", "src": PRELUDE + "\n".join(f"say(mk({n}))" for n in range(0, 64))}], nproc=1)["ref"]
     objs = {n: e[4:] for n, e in enumerate(ref["events"])}
+    refe = run_cases([{"id": "ref", "src": PRELUDE + "\n".join(f"say(mk({n}).try); say(mk({n}).try.{{|s| Err.new(\"bad\")}})" for n in range(0, 64))}], nproc=1)["ref"]
+    for n in range(0, 64):
+        objs[("E", True, n)], objs[("E", False, n)] = refe["events"][2 * n][4:], refe["events"][2 * n + 1][4:]
     reqs = []
     for i, c in enumerate(cases):
         steps = "".join(STEP[s] for s in c["chain"])
@@ -118,7 +123,7 @@ def run():
     ck.cov["traces_validated_against_impl"] = 2 * len(cases)
     ck.cov["exhaustive"] = True
     ck.cov["rule"] = ("every chain of <= MaxSteps (2 quick, 3 thorough) steps over {method returning a value / nil / raising Err, ZeroDivisionErr, NameErr; method "
-                      "with positional+keyword arguments; non-callable property; literal step returning a value / raising / returning a caught error object}; "
+                      "with positional+keyword arguments (two keyword values and the default); method returning an Either (holding a value / an error); non-callable property; literal step returning a value / raising / returning a caught error object}; "
                       "per chain: plain run, wrapped run, calls made, and 10 accessor forms (val err A or val? err? catch(match/no match) ignore abandon); "
                       "non-trivial = chains with a failure")
     ck.assumptions = ["receiver objects are rendered through the interpreter itself (mk(n)) for comparison of values"]
